@@ -484,8 +484,8 @@ func checkC03(e *Env) {
 		}
 		for i := range res {
 			op, r := &g.ops[i], &res[i]
-			if (op.Fn != "chk" && op.Fn != "val") || r.Panic != "" {
-				continue
+			if (op.Fn != "chk" && op.Fn != "val") || r.Panic != "" || !supportedLang(op.L) {
+				continue // the property speaks about supported languages
 			}
 			histOps.Inc(op.Fn)
 			accepted := (op.Fn == "chk" && r.Err == nil) || (op.Fn == "val" && r.B != nil && *r.B)
